@@ -20,6 +20,11 @@ CLAIMS = {
         text="Rule-based static decision: Power-Loss == |Vout|*Iout for all inputs of every non-load kind, Loss>=0 under constructor-justified sign lemmas, efficiency element is EFF(Power, Power-Loss), temperature rise/peak identities, load power-or-loss exclusivity, and the operands solve() hands to the power routine. The per-component identities are decided exactly; the system-wide balance is derived from them, not checked separately.",
         note=TB + "Not decided: residual of the identities at a merely tolerance-converged iterate. For plain loads the rule is tr == rt*consumption (what test_case13 pins), deliberately not the literal 'rt x Loss' of the statement. Known finding K1 (negative Source) listed in known_findings.json.",
         ref="DESIGN.md section 4 C02"),
+    "C03": dict(
+        technique="structural rules on the solver loop (exit-test operands and tolerances, counter, carry order, complementary post-check compared as comparison atoms) + sibling guard rule on law summaries (polarity / magnitude established by the leaf's guards)",
+        text="Static decision of the structural minority of the statement: shape and operands of the convergence test, boundedness and the complementary RuntimeError check at the call site, and the polarity/magnitude guard of every passive series law (all guard rows, all inputs). This is a necessary-condition check; it says nothing about the numerics.",
+        note=TB + "NOT decided (most of the statement): that the returned iterate is within tolerance of a true fixed point, finiteness, that a benign steady state is found when one exists, iteration count - these quantify over the trajectory of a floating-point iteration. batt_life() drops the solver's iteration count (observed, no rule armed). Known finding K1 listed in known_findings.json.",
+        ref="DESIGN.md section 4 C03"),
     "C04": dict(
         technique="guarded summaries vs dead/sleep table on the dead and sleep guard rows; structural rules on solver state propagation and initialisation",
         text="Static induction step: every law returns 0 A / 0 W / (0 V, OFF) on dead rows and exactly the sleep current/power on phase-inactive rows, OFF is only ever reported with literal 0 V, and the solver carries and initialises the off-state per node from its own parents. Together with the C01 wiring rules this gives isolation of the whole subtree.",
